@@ -56,60 +56,3 @@ Proof.
   destruct (alookup Nat.eqb nm (pn_nodes (get_node pfs s1 n))); apply Fin; auto. intros k. apply refs_notify_delete.
 Qed.
 
-(** ---- notifyDelete marks only what it reaches ---- *)
-Lemma nch_nodes_same (s s' : st) : nodes_same pfs s s' -> forall a x, nch s' a x = nch s a x.
-Proof. intros (_ & N) a x. unfold nch. change (gnode ?t a) with (FenceProofs.gnode pfs t a). rewrite N. reflexivity. Qed.
-
-Lemma nd_only fuel : forall n (s : st) m, rkeys s ->
-  pn_deleted (gnode (notify_delete pfs fuel n s) m) = true ->
-  pn_deleted (gnode s m) = true \/ exists sg, walk (nch s) n sg = Some m.
-Proof.
-  induction fuel as [|f IH]; intros n s m K H; cbn [notify_delete] in H; [left; exact H|].
-  set (s1 := set_node pfs n (pn_with_deleted (get_node pfs s n)) s) in *.
-  assert (NS1 : nodes_same pfs s s1) by (apply ns_set_node; reflexivity).
-  assert (K1 : rkeys s1) by (apply rk_set_node; auto).
-  assert (D1 : pn_deleted (gnode s1 m) = true -> pn_deleted (gnode s m) = true \/ m = n).
-  { unfold s1. rewrite gnode_set_node. destruct ((m =? n) && (n <? nlen s)) eqn:X; auto.
-    apply andb_prop in X. destruct X as (X & _). apply Nat.eqb_eq in X. auto. }
-  assert (Fold : forall l st, nodes_same pfs s st -> rkeys st -> incl l (pn_nodes (gnode s n)) ->
-            pn_deleted (gnode (fold_left (fun st c => notify_delete pfs f (snd c) st) l st) m) = true ->
-            pn_deleted (gnode st m) = true \/ exists sg, walk (nch s) n sg = Some m).
-  { induction l as [|[x c] l IHl]; intros st NS Kst Hl Hm; cbn [fold_left] in Hm; [left; exact Hm|].
-    assert (NS' : nodes_same pfs s (notify_delete pfs f c st)) by (eapply nodes_same_trans; [exact NS | apply ns_notify_delete]).
-    destruct (IHl _ NS' (rk_notify_delete f c st Kst) (fun e He => Hl e (or_intror He)) Hm) as [Hd|Hw]; [|right; exact Hw].
-    cbn [snd] in Hd. destruct (IH c st m Kst Hd) as [Hd'|(sg & W)]; [left; exact Hd'|]. right.
-    exists (x :: sg). cbn [walk].
-    assert (E : nch s n x = Some c). { unfold nch. apply (In_alookup Nat.eqb Nat.eqb_spec); [apply (proj2 (K n)) | apply Hl; left; reflexivity]. }
-    rewrite E. rewrite <- W. apply walk_eq. intros a y. symmetry. apply nch_nodes_same. exact NS. }
-  destruct (Fold (pn_nodes (get_node pfs s n)) s1 NS1 K1 (incl_refl _) H) as [Hd|Hw]; [|right; exact Hw].
-  destruct (D1 Hd) as [Hd'| ->]; [left; exact Hd' | right; exists []; reflexivity].
-Qed.
-
-Lemma mcd_only n nm (s : st) m : n < nlen s -> rkeys s ->
-  pn_deleted (gnode (mark_child_deleted pfs pfs_step n nm s) m) = true ->
-  pn_deleted (gnode s m) = true \/ exists v sg, nch s n nm = Some v /\ walk (nch s) v sg = Some m.
-Proof.
-  intros Hn K. unfold mark_child_deleted, remove_with_name.
-  set (lp := match alookup Nat.eqb nm (pn_refs (get_node pfs s n)) with
-             | Some m => rwn_loop pfs n nm None m [] s | None => ([], s) end).
-  assert (H1 : fst lp = [] /\ nodes_same pfs s (snd lp) /\ rkeys (snd lp) /\ (forall k, pn_deleted (gnode (snd lp) k) = pn_deleted (gnode s k))).
-  { unfold lp. destruct (alookup Nat.eqb nm (pn_refs (get_node pfs s n))) as [l|];
-      [|cbn [fst snd]; split; [reflexivity|]; split; [apply nodes_same_refl|]; split; [exact K | reflexivity]].
-    split; [apply held_rwn_none|]. split; [apply ns_rwn_none|]. split; [apply rk_rwn_none; auto | apply del_rwn_none]. }
-  destruct lp as [held s1]. cbn [fst snd] in H1. destruct H1 as (-> & NS1 & K1 & D1). cbn [release_all].
-  set (s2 := set_node pfs n (pn_with_nodes (get_node pfs s1 n) (adel Nat.eqb nm (pn_nodes (get_node pfs s1 n)))) s1).
-  assert (K2 : rkeys s2).
-  { apply rk_set_node; auto. intros Kn. apply pkeys_with_nodes; auto. apply (gadel_nodup Nat.eqb Nat.eqb_spec). apply Kn. }
-  assert (D2 : forall k, pn_deleted (gnode s2 k) = pn_deleted (gnode s k)).
-  { intros k. unfold s2. rewrite gnode_set_node. destruct ((k =? n) && (n <? nlen s1)) eqn:X; [|apply D1].
-    apply andb_prop in X. destruct X as (X & _). apply Nat.eqb_eq in X. subst. cbn. apply D1. }
-  assert (Sub : forall a x c, nch s2 a x = Some c -> nch s a x = Some c).
-  { intros a x c. unfold nch, s2. rewrite gnode_set_node. destruct ((a =? n) && (n <? nlen s1)) eqn:X.
-    - apply andb_prop in X. destruct X as (X & _). apply Nat.eqb_eq in X. subst a. cbn [pn_nodes pn_with_nodes].
-      rewrite (alookup_adel Nat.eqb Nat.eqb_spec). destruct (x =? nm); [discriminate|]. intros H. change (nch s n x = Some c). rewrite <- (nch_nodes_same s s1 NS1 n x). exact H.
-    - intros H. change (nch s a x = Some c). rewrite <- (nch_nodes_same s s1 NS1 a x). exact H. }
-  fold (gnode s1 n). destruct (alookup Nat.eqb nm (pn_nodes (gnode s1 n))) as [v|] eqn:Ev.
-  - intros H. destruct (nd_only _ v s2 m K2 H) as [Hd|(sg & W)]; [left; rewrite <- D2; exact Hd|]. right.
-    exists v, sg. split; [rewrite <- (nch_nodes_same s s1 NS1); exact Ev | eapply walk_ext; eauto].
-  - intros H. left. rewrite <- D2. exact H.
-Qed.
